@@ -15,7 +15,7 @@ ASSUMPTIONS = ['EA: doubles exact reals, exp/log uninterpreted with exp(log x) =
 
 SRCS = ['Utilities.cpp', 'Special_Functions.cpp', 'Natural_Units.cpp', 'Linear_Algebra.cpp']
 NATIVE_SRCS = ['Numerics.cpp', 'Special_Functions.cpp', 'Utilities.cpp', 'Linear_Algebra.cpp', 'Integration.cpp', 'Statistics.cpp', 'Natural_Units.cpp']
-KEEP = ['verif_workload', 'verif_range', 'verif_range1', 'verif_space', 'verif_closest', 'verif_lists', 'verif_in_units', 'verif_count_lines', 'verif_import_table', 'verif_import_list']
+KEEP = ['verif_workload', 'verif_range', 'verif_range1', 'verif_space', 'verif_closest', 'verif_lists', 'verif_in_units', 'verif_count_lines', 'verif_import_table', 'verif_import_list', 'verif_export_table', 'verif_export_list']
 G = {}
 def module(ctx):
     if 'm' not in G: G['m'] = ctx.lower(SRCS, 'UT.cpp', KEEP, exceptions=True)
